@@ -140,7 +140,7 @@ def run(chk: harness.Check):
         "receive matching severities; (D4) in RecipeCollector::parse_events the Event::Error arm calls SourceReport::retain with a Stage::Parse predicate and "
         "returns PassResult::new(None, ..), every other PassResult::new carries Some(content); (D5) PassResult::is_valid is has_output() ∧ ¬has_errors(); "
         "(D6) every Number::Fraction built in the parser takes its denominator from frac() or under the `== 0` rejection; (D7) the out-of-range diagnostic of an intermediate reference is guarded by the "
-        "n-th element of the is_step-filtered enumeration of the current section / a comparison with content.sections.len() (shared with C06.D6); (D8) Text::is_text_empty, on which the empty-name/unit/key/value checks hang, examines every fragment; (D9) the primary label stays labels[0]: constructors start the list with it and it is only ever pushed to; (D10) the sets of modifier flags tested by the forbidden-modifier checks are the reviewed sets; (D11) the front-matter mapping that is checked is the deserialiser's result on every path and every exit after deserialising processes it or reports; (D12) the cookware parser tests the unit itself and reports it on every path where it is present. Weak: which condition triggers a "
+        "n-th element of the is_step-filtered enumeration of the current section / a comparison with content.sections.len() (shared with C06.D6); (D8) Text::is_text_empty, on which the empty-name/unit/key/value checks hang, examines every fragment; (D9) the primary label stays labels[0]: constructors start the list with it and it is only ever pushed to; (D10) the sets of modifier flags tested by the forbidden-modifier checks are the reviewed sets; (D11) the front-matter mapping that is checked is the deserialiser's result on every path and every exit after deserialising processes it or reports; (D12) the cookware parser tests the unit itself and reports it on every path where it is present; (D13) under TIMER_REQUIRES_TIME no error-free path builds a timer whose quantity was not seen present. Weak: which condition triggers a "
         "diagnostic and where its labels point are not decided.")
     chk.trusted = ["rustc MIR", "tables/diagnostics.toml (reviewed catalogue; message texts are listed for the reader and never compared)"]
     cons = constructions(F)
@@ -184,6 +184,7 @@ def run(chk: harness.Check):
     d10_modifier_sets(chk, F)
     d11_frontmatter_malformed(chk, F)
     d12_cookware_unit(chk, F)
+    d13_timer_requires_time(chk, F)
 
 
 # reviewed sets of modifier flags that a check tests for (function suffix, method) -> set; from the documented rules:
@@ -192,6 +193,52 @@ MODIFIER_SETS = {
     ("RecipeCollector::ingredient", "intersects"): {"RECIPE", "HIDDEN", "NEW"},
     ("RecipeCollector::resolve_reference", "contains"): {"NEW", "REF"},
 }
+
+
+def d13_timer_requires_time(chk, F):
+    """'timer without … duration produces a diagnostic' under TIMER_REQUIRES_TIME: in the timer parser there is no path to a return that
+    avoids every BlockParser::error call, never sees the quantity present (the not-none outcome of a test of the body's quantity) and never
+    sees the TIMER_REQUIRES_TIME test fail — i.e. with the extension on, a timer whose quantity is absent always reports."""
+    R = "C07.D13-timer-requires-time"
+    fs = [g for g in F.find("parser::step::timer") if not g.is_closure()]
+    if len(fs) != 1:
+        chk.fail("anchor-missing", "parser::step::timer", "", f"anchor-missing: parser::step::timer found {len(fs)} times")
+        return
+    f = fs[0]
+    errs = {b for b, _ in calls_to(f, "BlockParser::error")}
+    gate_false, gates = [], 0
+    for b, t in calls_to(f, "BlockParser::extension"):
+        if any("TIMER_REQUIRES_TIME" in str((a.get("const") or {}).get("path", "")) or "TIMER_REQUIRES_TIME" in show(resolve(f, a)) for a in t.get("args", [])):
+            gates += 1
+            gate_false += call_result_edges(f, b)[1]
+    chk.floor(R, "TIMER_REQUIRES_TIME tests in timer()", gates, 1, f"{f.file}:{f.line}")
+    present = []
+    for b, t in f.calls():
+        k = callee_key(t) or ""
+        if k.endswith(("Option::<T>::is_none", "Option::<T>::is_some")) and ".quantity" in show(resolve(f, t["args"][0]), -200) + show(resolve(f, t["args"][0])):
+            te, fe = call_result_edges(f, b)
+            present += fe if k.endswith("is_none") else te
+    for i, j, st in f.iter_stmts():
+        rv = st.get("rv", {})
+        if st["k"] == "assign" and rv.get("k") == "discr" and "Option<" in norm(rv.get("ty", "")):
+            txt = show(resolve_place(f, rv["place"]), -200)
+            if ".quantity" in txt or "quantity" in (f.local_name(rv["place"]["l"]) or ""):
+                some = [v[0] for v in rv["variants"] if v[1] == "Some"]
+                for b, t in f.iter_terms("switch"):
+                    if operand_local(t["discr"]) == st["place"]["l"] and some:
+                        tg = [tgt for val, tgt in t["targets"] if val == some[0]] or [t["otherwise"]]
+                        present += [(b, x) for x in tg]
+    chk.floor(R, "tests of the timer quantity's presence", len(present), 1, f"{f.file}:{f.line}")
+    if not gates or not present:
+        return
+    built = [i for ff, i, st_, d in aggregates(F, f.key, "parser::model::Timer") if ff is f] or [i for ff, i, st_, d in aggregates(F, f.key, "model::Timer") if ff is f]
+    chk.floor(R, "Timer constructions in timer()", len(built), 1, f"{f.file}:{f.line}")
+    reach = f.reach_from(0, removed_edges=set(gate_false) | set(present), removed_nodes=errs)
+    bad = [r for r in built if r in reach]
+    chk.expect(not bad, R, "timer|absent quantity reports", f"{f.file}:{f.line}",
+               "with TIMER_REQUIRES_TIME set, a timer whose quantity is absent can be accepted on a path that reports nothing (no BlockParser::error, the "
+               "quantity never seen present, the extension test never seen off)",
+               sample=f"{f.file}:{f.line}: every error-free path has the quantity present or the extension off")
 
 
 def d12_cookware_unit(chk, F):
